@@ -200,12 +200,28 @@ pub fn probe_encoder_result(res: &EncoderResult, r: usize, b: usize, seed: u64) 
     if res.recovery_iter().nth(n).map(<[u8]>::to_vec) != all.get(n).cloned() {
         return Err(format!("recovery_iter().nth({n}) disagrees with the {n}-th item of repeated next()"));
     }
-    if res.recovery_iter().skip(n).map(<[u8]>::to_vec).collect::<Vec<_>>() != all[n.min(r)..] {
+    // (every adaptor-driven walk is cut off two items after the real length: an iterator that never ends must not
+    // take the process down)
+    if res.recovery_iter().skip(n).take(r + 2).map(<[u8]>::to_vec).collect::<Vec<_>>() != all[n.min(r)..] {
         return Err(format!("recovery_iter().skip({n}) disagrees with repeated next()"));
     }
     let step = 1 + p.below(3) as usize;
-    if res.recovery_iter().step_by(step).map(<[u8]>::to_vec).collect::<Vec<_>>() != all.iter().step_by(step).cloned().collect::<Vec<_>>() {
+    if res.recovery_iter().step_by(step).take(r + 2).map(<[u8]>::to_vec).collect::<Vec<_>>() != all.iter().step_by(step).cloned().collect::<Vec<_>>() {
         return Err(format!("recovery_iter().step_by({step}) disagrees with repeated next()"));
+    }
+    {
+        // the same on an iterator that has already been advanced: a items by next(), then nth(m), then next()
+        let a = p.below(r as u64 + 1) as usize;
+        let m = p.below(r as u64 + 1) as usize;
+        let mut it = res.recovery_iter();
+        for _ in 0..a {
+            it.next();
+        }
+        let got = (it.nth(m).map(<[u8]>::to_vec), it.next().map(<[u8]>::to_vec));
+        let want = (all.get(a + m).cloned(), all.get(a + m + 1).cloned());
+        if got != want {
+            return Err(format!("recovery_iter(): {a} x next(), then nth({m}), then next() disagrees with repeated next()"));
+        }
     }
     if res.recovery_iter().count() != r || res.recovery_iter().last().map(<[u8]>::to_vec) != all.last().cloned() {
         return Err("recovery_iter().count() / last() disagree with repeated next()".to_string());
@@ -267,12 +283,25 @@ pub fn probe_decoder_result(res: &DecoderResult, k: usize, b: usize, given: &[bo
         if res.restored_original_iter().nth(n).map(own) != seq.get(n).cloned() {
             return Err(format!("restored_original_iter().nth({n}) disagrees with the {n}-th item of repeated next()"));
         }
-        if res.restored_original_iter().skip(n).map(own).collect::<Vec<_>>() != seq[n.min(len)..] {
+        if res.restored_original_iter().skip(n).take(len + 2).map(own).collect::<Vec<_>>() != seq[n.min(len)..] {
             return Err(format!("restored_original_iter().skip({n}) disagrees with repeated next()"));
         }
         let step = 1 + p.below(3) as usize;
-        if res.restored_original_iter().step_by(step).map(own).collect::<Vec<_>>() != seq.iter().step_by(step).cloned().collect::<Vec<_>>() {
+        if res.restored_original_iter().step_by(step).take(len + 2).map(own).collect::<Vec<_>>() != seq.iter().step_by(step).cloned().collect::<Vec<_>>() {
             return Err(format!("restored_original_iter().step_by({step}) disagrees with repeated next()"));
+        }
+        {
+            let a = p.below(len as u64 + 1) as usize;
+            let m = p.below(len as u64 + 1) as usize;
+            let mut it = res.restored_original_iter();
+            for _ in 0..a {
+                it.next();
+            }
+            let got = (it.nth(m).map(own), it.next().map(own));
+            let want = (seq.get(a + m).cloned(), seq.get(a + m + 1).cloned());
+            if got != want {
+                return Err(format!("restored_original_iter(): {a} x next(), then nth({m}), then next() disagrees with repeated next()"));
+            }
         }
         if res.restored_original_iter().count() != len || res.restored_original_iter().last().map(own) != seq.last().cloned() {
             return Err("restored_original_iter().count() / last() disagree with repeated next()".to_string());
